@@ -695,9 +695,9 @@ fn c06_deposit_leg_long_whole_u8() {
     deposit_leg(true, true);
 }
 
-//@ prop=C06 tier=thorough kind=hold
+//@ prop=C06 tier=experimental kind=hold
 //@ enc=Deposit::try_new, Deposit::execute, Deposit::price_impact, Deposit::execute_deposit, Deposit::charge_fees, LiquidityMarketExt::pool_value, LiquidityMarketExt::validate_pool_value_for_deposit, BaseMarketExt::validate_max_pnl, BaseMarketExt::validate_pool_amount, BaseMarketMutExt::apply_delta, utils::usd_to_market_token_amount, FeeParams::apply_fees
-//@ bound=T=u8 DECIMALS=1 (UNIT 10): one LONG-token Deposit::execute with swap impact factors ZERO (cheaper companion of the harness above): liquidity pool, swap impact pool, supply (supply > 0 or liquidity empty), divisor, amount, all six prices, swap fee / receiver factors symbolic; no open interest, no borrowing state, no position impact pool
+//@ bound=T=u8 DECIMALS=1 (UNIT 10): one LONG-token Deposit::execute with swap impact factors ZERO (cheaper companion of the harness above; NOT run to completion -- stopped at 44 min / 15.7 GB to free the shared machine -- hence experimental): liquidity pool, swap impact pool, supply (supply > 0 or liquidity empty), divisor, amount, all six prices, swap fee / receiver factors symbolic; no open interest, no borrowing state, no position impact pool
 //@ timeout=5400 mem=40
 #[kani::proof]
 #[kani::unwind(1)]
